@@ -10,11 +10,10 @@ idempotent, box-preserving), all random draws of the focus candidate, line-searc
 Induction: the pre-state of a step is arbitrary subject to the invariant the step is shown to re-establish.
 """
 from symex.engine import Instance
-from symex.values import Ctx
-from symex import stubs
 from symex.ob import (eq, ne, le, lt, ge, gt, And, Or, Not, Implies, Iff, const, ite, absv, maxv, minv, R,
                       sumv, isinf, veq)
 from harness import solverlib as L
+from harness import steps as S
 
 PROPERTY = 'C01'
 LEVEL = 'model_checking'
@@ -24,131 +23,12 @@ ASSUMPTIONS = [
     'penalty >= 0',
     'DE: all random draws of ONE focus candidate per instance are solver variables (every candidate position is an instance); '
     'the other candidates use fixed draws (first available partners, crossover only at the forced index) - their vectors and energies stay symbolic',
-    'Powell: Brent line search replaced by its contract (evaluates func(0) and func(alpha) for an arbitrary step length alpha with func(alpha) <= func(0), returns (alpha, func(alpha))); the contract itself is a separate instance family (brent/*)',
+    'Powell: Brent line search replaced by its contract (evaluates func(0) and func(alpha) for an arbitrary step length alpha with func(alpha) <= func(0), returns (alpha, func(alpha)))',
     'one step per harness from an arbitrary state satisfying the invariant (induction); settings fixed during the step',
 ]
-BOUNDS = {'quick': dict(dim='1..2', NP=4, strategies=['Best1Bin', 'Rand1Exp'], steps=1),
-          'thorough': dict(dim='1..3', NP='4..5', strategies='all ten', steps=1)}
+BOUNDS = {'quick': dict(dim='1..2', NP=4, strategies=['Best1Bin', 'Rand1Exp'], steps='1 (DE, NM from arbitrary state); 0..2 from arbitrary x0 (NM start, Powell)'),
+          'thorough': dict(dim='1..3', NP='4..6', strategies='all ten', steps='1 (DE, NM from arbitrary state); 0..2 from arbitrary x0 (NM start, Powell)')}
 BUDGET = {'quick': 600, 'thorough': 5400}
-
-CONFIGS = {
-    'plain': dict(),
-    'pen': dict(pen=True),
-    'cons': dict(cons='pure'),
-    'cons-inplace': dict(cons='inplace'),
-    'box': dict(box=True),
-    'box+cons+pen': dict(box=True, cons='pure', pen=True),
-    'reducer+pen': dict(ncost=2, pen=True),
-}
-
-
-class FixedDraws(object):
-    def random(self):
-        return 0.95
-
-    def randrange(self, n):
-        return 0
-
-
-def focus_strategy(name, focus):
-    import mystic.strategy as st
-    real = getattr(st, name)
-
-    def strategy(inst, candidate):
-        stubs.ORACLE.override = None if (focus is None or candidate == focus) else FixedDraws()
-        try:
-            return real(inst, candidate)
-        finally:
-            stubs.ORACLE.override = None
-    strategy.__name__ = name
-    return strategy
-
-
-def de_class(two):
-    import mystic.differential_evolution as de
-    return de.DifferentialEvolutionSolver2 if two else de.DifferentialEvolutionSolver
-
-
-# ------------------------------------------------------------------------------------- DE
-def de_step(two, strat, cfg, dim, NP, focus):
-    def h(ctx):
-        w = L.World(ctx, dim, **CONFIGS[cfg])
-        s = de_class(two)(dim, NP)
-        L.configure(s, w)
-        P = [ctx.reals('P%d_' % i, dim) for i in range(NP)]
-        for p in P:
-            ctx.assume(w.inside(p))
-            ctx.assume(w.feasible(p))
-        boxed = w.lo is not None
-        s.population = [L.arr(p) if boxed else list(p) for p in P]
-        s._decorate_objective(w.cost)
-        E = [w.raw(p) for p in P]
-        jb = [ctx.bool('best_is_%d' % i) for i in range(NP)]
-        ctx.assume(Or(*jb))
-        best, bestE = ctx.reals('B', dim), ctx.real('BE')
-        for i in range(NP):
-            ctx.assume(le(bestE, E[i]))
-            ctx.assume(Implies(jb[i], And(veq(best, P[i]), eq(bestE, E[i]))))
-        s.popEnergy = list(E)
-        s.bestSolution = L.arr(best)
-        s.bestEnergy = bestE
-        L.log_generations(s, 1, best, bestE)
-        n0 = len(w.calls)
-        ev0 = s.evaluations
-        msg = s.Step(strategy=focus_strategy(strat, focus), callback=w.callback)
-        pop, en, b1, be1 = L.state_of(s)
-        obs = [('step-returned-no-stop', const(msg is None))]
-        for i in range(NP):
-            obs.append(('member-energy-is-objective[%d]' % i, w.energy_is(en[i], pop[i])))
-            obs.append(('member-feasible[%d]' % i, w.feasible(pop[i])))
-            obs.append(('best<=member[%d]' % i, le(be1, en[i])))
-        obs.append(('best-energy-is-objective-at-best', w.energy_is(be1, b1)))
-        obs.append(('best-not-worse', le(be1, bestE)))
-        obs.append(('best-is-old-best-or-evaluated-point', Or(veq(b1, best), w.was_called_at(b1))))
-        obs.append(('best-is-a-member', Or(*[And(veq(b1, pop[i]), eq(be1, en[i])) for i in range(NP)])))
-        obs.append(('one-evaluation-per-candidate', const(len(w.calls) - n0 <= NP)))
-        ctx.observe('bestEnergy', be1)
-        ctx.observe('best', b1)
-        return obs
-    return h
-
-
-def de_gen0(two, cfg, dim, NP):
-    """generation 0 from an arbitrary initial population (public API only)"""
-    def h(ctx):
-        w = L.World(ctx, dim, **CONFIGS[cfg])
-        s = de_class(two)(dim, NP)
-        L.configure(s, w)
-        P = [ctx.reals('P%d_' % i, dim) for i in range(NP)]
-        for i in range(NP):
-            s.population[i] = list(P[i])
-        msg = s.Step(callback=w.callback)
-        pop, en, b1, be1 = L.state_of(s)
-        obs = []
-        for i in range(NP):
-            if isinf(en[i]):
-                # never successfully evaluated: the trial was out of the box
-                obs.append(('dead-member-only-if-outside[%d]' % i, const(w.lo is not None)))
-            else:
-                obs.append(('member-energy-is-objective[%d]' % i, w.energy_is(en[i], pop[i])))
-                obs.append(('member-feasible[%d]' % i, w.feasible(pop[i])))
-                obs.append(('member-was-evaluated[%d]' % i, w.was_called_at(pop[i])))
-            obs.append(('best<=member[%d]' % i, le(be1, en[i])))
-        if not isinf(be1):
-            obs.append(('best-energy-is-objective-at-best', w.energy_is(be1, b1)))
-            obs.append(('best-was-evaluated', w.was_called_at(b1)))
-            # never worse than the initial guess (member 0 after constraints)
-            x0 = w.C(w.clip(P[0]))
-            obs.append(('best<=initial-guess', Implies(w.inside(x0), le(be1, w.raw(x0)))))
-        ctx.observe('bestEnergy', be1)
-        return obs
-    return h
-
-
-# ------------------------------------------------------------------------------------- Nelder-Mead
-def nm_solver(dim):
-    import mystic.scipy_optimize as so
-    return so.NelderMeadSimplexSolver(dim)
 
 
 def nm_objective(w, E, v):
@@ -156,236 +36,147 @@ def nm_objective(w, E, v):
     return w.energy_is(E, w.C(v))
 
 
-def nm_step(cfg, dim, adaptive=False):
-    def h(ctx):
-        w = L.World(ctx, dim, **CONFIGS[cfg])
-        s = nm_solver(dim)
-        L.configure(s, w)
-        V = [ctx.reals('V%d_' % i, dim) for i in range(dim + 1)]
-        CV = [w.C(v) for v in V]
-        for cv in CV:
-            ctx.assume(w.inside(cv))
-        ctx.assume(w.feasible(V[0]))
-        ctx.assume(w.inside(V[0]))
-        s.population[0] = L.arr(V[0])
-        s._decorate_objective(w.cost)
-        E = [w.raw(cv) for cv in CV]
-        for i in range(dim):
-            ctx.assume(le(E[i], E[i + 1]))
-        s.population = L.mat(V)
-        s.popEnergy = L.arr(E)
-        L.log_generations(s, 1, V[0], E[0])
-        n0 = len(w.calls)
-        msg = s.Step(callback=w.callback, adaptive=adaptive)
-        pop, en, b1, be1 = L.state_of(s)
-        obs = [('step-returned-no-stop', const(msg is None))]
-        for i in range(dim + 1):
-            obs.append(('vertex-energy-is-objective[%d]' % i, nm_objective(w, en[i], pop[i])))
-        for i in range(dim):
-            obs.append(('simplex-sorted[%d]' % i, le(en[i], en[i + 1])))
-        obs.append(('best-is-vertex-0', And(veq(b1, pop[0]), eq(be1, en[0]) if not isinf(be1) else const(isinf(en[0])))))
+def oblig(r):
+    w, k = r.w, r.kind
+    obs = []
+    if k == 'de-step':
+        pre, post = r.pre, r.post
+        obs.append(('step-returned-no-stop', const(r.msg is None)))
+        for i in range(r.NP):
+            obs.append(('member-energy-is-objective[%d]' % i, w.energy_is(post['en'][i], post['pop'][i])))
+            obs.append(('member-feasible[%d]' % i, w.feasible(post['pop'][i])))
+            obs.append(('best<=member[%d]' % i, le(post['bestE'], post['en'][i])))
+        b1, be1 = post['best'], post['bestE']
+        obs.append(('best-energy-is-objective-at-best', w.energy_is(be1, b1)))
+        obs.append(('best-not-worse', le(be1, pre['bestE'])))
+        obs.append(('best-is-old-best-or-evaluated-point', Or(veq(b1, pre['best']), w.was_called_at(b1))))
+        obs.append(('best-is-a-member', Or(*[And(veq(b1, post['pop'][i]), eq(be1, post['en'][i])) for i in range(r.NP)])))
+        obs.append(('at-most-one-evaluation-per-candidate', const(post['ncalls'] - pre['ncalls'] <= r.NP)))
+    elif k == 'de-gen0':
+        post = r.post
+        b1, be1 = post['best'], post['bestE']
+        for i in range(r.NP):
+            if isinf(post['en'][i]):
+                obs.append(('dead-member-only-if-outside[%d]' % i, const(w.lo is not None)))
+            else:
+                obs.append(('member-energy-is-objective[%d]' % i, w.energy_is(post['en'][i], post['pop'][i])))
+                obs.append(('member-feasible[%d]' % i, w.feasible(post['pop'][i])))
+                obs.append(('member-was-evaluated[%d]' % i, w.was_called_at(post['pop'][i])))
+            obs.append(('best<=member[%d]' % i, le(be1, post['en'][i])))
+        if not isinf(be1):
+            obs.append(('best-energy-is-objective-at-best', w.energy_is(be1, b1)))
+            obs.append(('best-was-evaluated', w.was_called_at(b1)))
+            x0 = w.C(w.clip(r.pre['pop'][0]))
+            obs.append(('best<=initial-guess', Implies(w.inside(x0), le(be1, w.raw(x0)))))
+    elif k == 'nm-step':
+        pre, post = r.pre, r.post
+        b1, be1 = post['best'], post['bestE']
+        n = len(post['pop'])
+        obs.append(('step-returned-no-stop', const(r.msg is None)))
+        for i in range(n):
+            obs.append(('vertex-energy-is-objective[%d]' % i, nm_objective(w, post['en'][i], post['pop'][i])))
+        for i in range(n - 1):
+            obs.append(('simplex-sorted[%d]' % i, le(post['en'][i], post['en'][i + 1])))
+        obs.append(('best-is-vertex-0', And(veq(b1, post['pop'][0]), eq(be1, post['en'][0]) if not isinf(be1) else const(isinf(post['en'][0])))))
         obs.append(('best-feasible', w.feasible(b1)))
         obs.append(('best-energy-is-cost+penalty-at-best', w.energy_is(be1, b1)))
-        obs.append(('best-not-worse', le(be1, E[0])))
-        obs.append(('best-is-old-vertex-or-evaluated-point', Or(Or(*[veq(b1, cv) for cv in CV]), w.was_called_at(b1))))
-        ctx.observe('bestEnergy', be1)
-        ctx.observe('best', b1)
-        return obs
-    return h
-
-
-def nm_start(cfg, dim, gens):
-    """generation 0 (and 1: simplex construction) from an arbitrary initial guess, public API only"""
-    def h(ctx):
-        w = L.World(ctx, dim, **CONFIGS[cfg])
-        s = nm_solver(dim)
-        L.configure(s, w)
-        x0 = ctx.reals('x', dim)
-        s.population[0] = list(x0)
-        obs = []
-        for g in range(gens + 1):
-            s.Step(callback=w.callback)
-            pop, en, b1, be1 = L.state_of(s)
-            for i in range(dim + 1 if g else 1):
-                if not isinf(en[i]):
-                    obs.append(('vertex-energy-is-objective@%d[%d]' % (g, i), nm_objective(w, en[i], pop[i])))
-            if not isinf(be1):
-                obs.append(('best-feasible@%d' % g, w.feasible(b1)))
-                obs.append(('best-energy-is-cost+penalty-at-best@%d' % g, w.energy_is(be1, b1)))
-                obs.append(('best-was-evaluated@%d' % g, w.was_called_at(b1)))
-                # the initial guess as the solver evaluates it: clipped into the box, then constrained
-                g0 = w.calls[0]
-                obs.append(('best<=initial-guess@%d' % g, le(be1, w.raw(g0))))
-        ctx.observe('bestEnergy', be1)
-        return obs
-    return h
-
-
-# ------------------------------------------------------------------------------------- Powell
-def install_brent_contract(ctx):
-    """replace Brent by its contract: returns (alpha, func(alpha), 1, 1) for an arbitrary alpha"""
-    import mystic.scipy_optimize as so
-
-    def brent(func, args=(), brack=None, tol=1.48e-8, full_output=0, maxiter=500):
-        if Ctx.mode == 'sym':
-            from symex.values import SReal
-            a = SReal(ctx.fresh('alpha'))
+        obs.append(('best-not-worse', le(be1, pre['en'][0])))
+        obs.append(('best-is-old-vertex-or-evaluated-point', Or(Or(*[veq(b1, cv) for cv in pre['cpop']]), w.was_called_at(b1))))
+    elif k in ('nm-start', 'powell'):
+        post, g = r.post, r.g
+        b1, be1 = post['best'], post['bestE']
+        if k == 'nm-start':
+            for i in range(len(post['pop']) if g else 1):
+                if not isinf(post['en'][i]):
+                    obs.append(('vertex-energy-is-objective@%d[%d]' % (g, i), nm_objective(w, post['en'][i], post['pop'][i])))
+        if isinf(be1):
+            obs.append(('inf-only-if-outside@%d' % g, w.energy_is(be1, w.C(b1))))
         else:
-            a = float(ctx.fresh_value('alpha', 0.0))
-        f0 = L.scalar(func(0.0))
-        fa = L.scalar(func(a))
-        ctx.assume(le(fa, f0) if not (isinf(fa) and isinf(f0)) else const(True))
-        return a, fa, 1, 2
-    so.brent = brent
-
-
-def powell_steps(cfg, dim, steps):
-    def h(ctx):
-        import mystic.scipy_optimize as so
-        install_brent_contract(ctx)
-        w = L.World(ctx, dim, **CONFIGS[cfg])
-        s = so.PowellDirectionalSolver(dim)
-        L.configure(s, w)
-        x0 = ctx.reals('x', dim)
-        s.population[0] = list(x0)
-        obs = []
-        prev = None
-        for g in range(steps):
-            s.Step(callback=w.callback)
-            pop, en, b1, be1 = L.state_of(s)
-            if isinf(be1):
-                obs.append(('inf-only-if-outside@%d' % g, w.energy_is(be1, w.C(b1))))
-                continue
             obs.append(('best-feasible@%d' % g, w.feasible(b1)))
             obs.append(('best-energy-is-cost+penalty-at-best@%d' % g, w.energy_is(be1, b1)))
             obs.append(('best-was-evaluated@%d' % g, w.was_called_at(b1)))
-            g0 = w.calls[0]
-            obs.append(('best<=initial-guess@%d' % g, le(be1, w.raw(g0))))
-            eh = [L.scalar(e) for e in s.energy_history]
-            obs.append(('history-ends-in-best@%d' % g, eq(eh[-1], be1) if not isinf(eh[-1]) else const(False)))
-        ctx.observe('bestEnergy', be1)
-        return obs
-    return h
-
-
-# ------------------------------------------------------------------------------------- decoration stack
-def decoration(kind, cfg, dim):
-    """decorated(x) = reducer(cost(c'(x))) + penalty(c'(x)); inf iff c'(x) is outside the box; the raw cost is called
-    once, at c'(x), iff inside.  c' = c for NM/Powell, identity for DE (which constrains in the step)."""
-    def h(ctx):
-        import mystic.scipy_optimize as so
-        w = L.World(ctx, dim, **CONFIGS[cfg])
-        if kind == 'NM':
-            s = so.NelderMeadSimplexSolver(dim)
-        elif kind == 'Powell':
-            s = so.PowellDirectionalSolver(dim)
+            # the initial guess as the solver evaluates it: clipped into the box, then constrained
+            g0 = w.C(w.clip(r.pre['x0']))
+            obs.append(('best<=initial-guess@%d' % g, Implies(w.inside(g0), le(be1, w.raw(g0)))))
+            if k == 'powell':
+                eh = [L.scalar(e) for e in r.s.energy_history]
+                obs.append(('history-ends-in-best@%d' % g, eq(eh[-1], be1) if not isinf(eh[-1]) else const(False)))
+    elif k == 'decoration':
+        obs.append(('decorated-value', w.energy_is(r.out, r.target)))
+        if isinf(r.out):
+            obs.append(('not-called-outside-box', const(len(w.calls) == r.n0)))
         else:
-            s = de_class(kind == 'DE2')(dim, 4)
-        L.configure(s, w)
-        dec = s._decorate_objective(w.cost)
-        n0 = len(w.calls)
-        x = ctx.reals('x', dim)
-        arg = L.arr(x)
-        out = L.scalar(dec(arg))
-        target = w.C(x) if kind in ('NM', 'Powell') else list(x)
-        obs = [('decorated-value', w.energy_is(out, target))]
-        if isinf(out):
-            obs.append(('not-called-outside-box', const(len(w.calls) == n0)))
-        else:
-            obs.append(('called-exactly-once', const(len(w.calls) == n0 + 1)))
-            if len(w.calls) > n0:
-                obs.append(('called-at-the-constrained-point', veq(w.calls[-1], target)))
-        obs.append(('argument-not-modified', veq(L.vec(arg), x)) if w.cons != 'inplace' else ('noop', const(True)))
-        return obs
-    return h
-
-
-# ------------------------------------------------------------------------------------- wrappers
-def wrapper(kind, cfg, dim, maxiter):
-    def h(ctx):
-        import mystic.scipy_optimize as so
-        import mystic.differential_evolution as de
-        w = L.World(ctx, dim, **CONFIGS[cfg])
-        x0 = ctx.reals('x', dim)
-        kw = dict(full_output=1, disp=0, maxiter=maxiter)
-        if w.p is not None:
-            kw['penalty'] = w.penalty
-        if w.c is not None:
-            kw['constraints'] = w.constraint
-        if w.lo is not None:
-            kw['bounds'] = list(zip(w.lo, w.hi))
-        if kind == 'fmin':
-            out = so.fmin(w.cost, list(x0), **kw)
-        elif kind == 'fmin_powell':
-            install_brent_contract(ctx)
-            out = so.fmin_powell(w.cost, list(x0), **kw)
-        else:
-            stubs.ORACLE.override = FixedDraws()
-            try:
-                out = getattr(de, kind)(w.cost, list(x0), npop=4, **kw)
-            finally:
-                stubs.ORACLE.override = None
+            obs.append(('called-exactly-once', const(len(w.calls) == r.n0 + 1)))
+            if len(w.calls) > r.n0:
+                obs.append(('called-at-the-constrained-point', veq(w.calls[-1], r.target)))
+        if w.cons != 'inplace':
+            obs.append(('argument-not-modified', veq(L.vec(r.arg), r.x)))
+    elif k == 'wrapper':
+        out = r.out
         xopt, fopt = L.vec(out[0]), L.scalar(out[1])
-        obs = [('iterations<=maxiter', const(out[2] <= maxiter))]
+        obs.append(('iterations<=maxiter', const(out[2] <= r.maxiter)))
         if not isinf(fopt):
             obs.append(('fopt-is-cost+penalty-at-xopt', w.energy_is(fopt, xopt)))
             obs.append(('xopt-was-evaluated', w.was_called_at(xopt)))
             obs.append(('xopt-feasible', w.feasible(xopt)))
-            obs.append(('funcalls-is-number-of-cost-calls', const(out[3] == len(w.calls))))
-        ctx.observe('fopt', fopt)
-        return obs
-    return h
+    return obs
 
 
-STRATEGIES = ('Best1Exp', 'Best1Bin', 'Rand1Exp', 'RandToBest1Exp', 'Best2Exp', 'Rand2Exp', 'Rand1Bin', 'RandToBest1Bin',
-              'Best2Bin', 'Rand2Bin')
+def step_instances(tier, oblig, configs=None, **kw):
+    """the common grid of step scenarios (also used by C02-C04 with their own obligations)"""
+    out = []
+    q = tier == 'quick'
+    CF = configs or ('plain', 'pen', 'cons', 'cons-inplace', 'box', 'box+cons+pen', 'reducer+pen')
+    if q:
+        grid = [(False, 'Best1Bin', 'plain', 2, 4), (False, 'Rand1Exp', 'box+cons+pen', 1, 4), (True, 'Best1Bin', 'box+cons+pen', 1, 4),
+                (False, 'Best1Bin', 'pen', 1, 4), (True, 'Rand1Exp', 'cons-inplace', 1, 4), (False, 'Best1Bin', 'reducer+pen', 1, 4)]
+        grid = [g for g in grid if g[2] in CF]
+    else:
+        grid = []
+        for two in (False, True):
+            for st in S.STRATEGIES:
+                need = 6 if '2' in st else 4
+                for cfg in ([c for c in ('plain', 'box+cons+pen') if c in CF] if st not in ('Best1Bin', 'Rand1Exp') else CF):
+                    for dim in ((1, 2) if (cfg == 'plain' and need == 4) else (1,)):
+                        grid.append((two, st, cfg, dim, need))
+    for two, st, cfg, dim, NP in grid:
+        for focus in range(NP):
+            out.append(Instance('de-step/%s/%s/%s/dim=%d/NP=%d/focus=%d' % ('DE2' if two else 'DE', st, cfg, dim, NP, focus),
+                                S.de_step(two, st, cfg, dim, NP, focus, oblig, **kw)))
+    for two in (False, True):
+        for cfg in ([c for c in ('plain', 'box', 'box+cons+pen') if c in CF] if q else CF):
+            out.append(Instance('de-gen0/%s/%s/dim=1' % ('DE2' if two else 'DE', cfg), S.de_gen0(two, cfg, 1, 4, oblig, **kw)))
+    for cfg in CF:
+        for dim in ((1, 2) if (q and cfg in ('plain', 'cons')) or (not q) else (1,)):
+            out.append(Instance('nm-step/%s/dim=%d' % (cfg, dim), S.nm_step(cfg, dim, oblig, **kw)))
+        out.append(Instance('nm-start/%s/dim=1' % cfg, S.nm_start(cfg, 1, 1, oblig, **kw)))
+    if 'plain' in CF:
+        out.append(Instance('nm-step/plain/dim=2/adaptive', S.nm_step('plain', 2, oblig, adaptive=True, **kw)))
+    if not q:
+        if 'plain' in CF:
+            out.append(Instance('nm-step/plain/dim=3', S.nm_step('plain', 3, oblig, **kw)))
+            out.append(Instance('nm-start/plain/dim=2', S.nm_start('plain', 2, 1, oblig, **kw)))
+        if 'box+cons+pen' in CF:
+            out.append(Instance('nm-start/box+cons+pen/dim=2', S.nm_start('box+cons+pen', 2, 1, oblig, **kw)))
+    for cfg in CF:
+        out.append(Instance('powell/%s/dim=1/steps=3' % cfg, S.powell_steps(cfg, 1, 3, oblig, **kw), qtimeout=3000 if q else 20000))
+    if 'plain' in CF:
+        out.append(Instance('powell/plain/dim=2/steps=%d' % (2 if q else 3), S.powell_steps('plain', 2, 2 if q else 3, oblig, **kw)))
+    if not q and 'cons' in CF:
+        out.append(Instance('powell/cons/dim=2/steps=3', S.powell_steps('cons', 2, 3, oblig, **kw)))
+    return out
 
 
 def instances(tier, seed):
     out = []
     q = tier == 'quick'
-    # decoration stack
+    CF = ('plain', 'pen', 'cons', 'cons-inplace', 'box', 'box+cons+pen', 'reducer+pen')
     for kind in ('DE', 'DE2', 'NM', 'Powell'):
-        for cfg in CONFIGS:
-            out.append(Instance('decoration/%s/%s/dim=2' % (kind, cfg), decoration(kind, cfg, 2)))
-    # DE steps
-    if q:
-        grid = [(False, 'Best1Bin', 'plain', 2, 4), (False, 'Rand1Exp', 'box+cons+pen', 1, 4), (True, 'Best1Bin', 'box+cons+pen', 1, 4),
-                (False, 'Best1Bin', 'pen', 1, 4), (True, 'Rand1Exp', 'cons-inplace', 1, 4), (False, 'Best1Bin', 'reducer+pen', 1, 4)]
-    else:
-        grid = []
-        for two in (False, True):
-            for st in STRATEGIES:
-                need = 6 if '2' in st else 4
-                for cfg in (('plain', 'box+cons+pen') if st not in ('Best1Bin', 'Rand1Exp') else tuple(CONFIGS)):
-                    for dim in ((1, 2) if cfg == 'plain' else (1,)):
-                        grid.append((two, st, cfg, dim, need))
-    for two, st, cfg, dim, NP in grid:
-        for focus in range(NP):
-            out.append(Instance('de-step/%s/%s/%s/dim=%d/NP=%d/focus=%d' % ('DE2' if two else 'DE', st, cfg, dim, NP, focus),
-                                de_step(two, st, cfg, dim, NP, focus)))
-    for two in (False, True):
-        for cfg in (('plain', 'box', 'box+cons+pen') if q else tuple(CONFIGS)):
-            out.append(Instance('de-gen0/%s/%s/dim=1' % ('DE2' if two else 'DE', cfg), de_gen0(two, cfg, 1, 4)))
-    # Nelder-Mead
-    for cfg in CONFIGS:
-        for dim in ((1, 2) if (q and cfg in ('plain', 'cons')) or (not q) else (1,)):
-            out.append(Instance('nm-step/%s/dim=%d' % (cfg, dim), nm_step(cfg, dim)))
-        out.append(Instance('nm-start/%s/dim=1' % cfg, nm_start(cfg, 1, 1)))
-    out.append(Instance('nm-step/plain/dim=2/adaptive', nm_step('plain', 2, True)))
-    if not q:
-        out.append(Instance('nm-step/plain/dim=3', nm_step('plain', 3)))
-        out.append(Instance('nm-start/plain/dim=2', nm_start('plain', 2, 1)))
-        out.append(Instance('nm-start/box+cons+pen/dim=2', nm_start('box+cons+pen', 2, 1)))
-    # Powell
-    for cfg in CONFIGS:
-        out.append(Instance('powell/%s/dim=1/steps=3' % cfg, powell_steps(cfg, 1, 3), qtimeout=3000 if q else 20000))
-    out.append(Instance('powell/plain/dim=2/steps=%d' % (2 if q else 3), powell_steps('plain', 2, 2 if q else 3)))
-    if not q:
-        out.append(Instance('powell/cons/dim=2/steps=3', powell_steps('cons', 2, 3)))
-    # wrappers (tails)
+        for cfg in CF:
+            out.append(Instance('decoration/%s/%s/dim=2' % (kind, cfg), S.decoration(kind, cfg, 2, oblig)))
+    out += step_instances(tier, oblig)
     for kind in ('fmin', 'fmin_powell', 'diffev', 'diffev2'):
         for cfg in (('plain', 'box+cons+pen') if q else ('plain', 'pen', 'cons', 'box', 'box+cons+pen')):
             for mi in ((1,) if q else (0, 1, 2)):
-                out.append(Instance('wrapper/%s/%s/maxiter=%d' % (kind, cfg, mi), wrapper(kind, cfg, 1, mi)))
+                out.append(Instance('wrapper/%s/%s/maxiter=%d' % (kind, cfg, mi), S.wrapper(kind, cfg, 1, mi, oblig)))
     return out
